@@ -1,6 +1,8 @@
 package limiter
 
 import (
+	"errors"
+
 	"github.com/gofiber/fiber/v3"
 )
 
@@ -22,4 +24,18 @@ func New(config ...Config) fiber.Handler {
 
 	// Return the specified middleware handler.
 	return cfg.LimiterMiddleware.New(cfg)
+}
+
+// effectiveStatus returns the status the request ends with. A handler that fails by returning an error has
+// not written a status yet when the stack returns - the application's ErrorHandler does that later - so the
+// status is taken from the error: its code for a *fiber.Error, 500 otherwise (what the default ErrorHandler sends).
+func effectiveStatus(c fiber.Ctx, err error) int {
+	if err != nil {
+		var e *fiber.Error
+		if errors.As(err, &e) {
+			return e.Code
+		}
+		return fiber.StatusInternalServerError
+	}
+	return c.Response().StatusCode()
 }
